@@ -89,6 +89,15 @@ def oversize_reply(rng, ident):
     return scn.line("scn", ident, s, max_=2000, extra="nt=1 quiescent=1 family=oversize-reply expectreply=50~100")
 
 
+def undecodable_reply(rng, ident):
+    """the peer's result does not decode into the caller's result type: the call must not report success"""
+    bad = rng.choice([("m", [(("s", b"A"), 7), (("s", b"B"), ("s", b"seven"))]), ("s", b"not-a-struct"), [1, ("s", b"x")]])
+    ch = mp.Chooser()
+    resp = frames.frame(frames.content([1, 0, None, bad], ch), ch)
+    s = ["calltyped/c1/%s/%s" % (scn.M.hex(), T(scn.arg(1))), "feednowait/" + resp.hex(), "await/c1", "settle"]
+    return scn.line("scn", ident, s, extra="nt=1 family=undecodable-reply expect=1:eof+other+app")
+
+
 def explore(ctx):
     rng, tier = ctx["rng"], ctx["tier"]
     if ctx.get("replay"):
@@ -109,5 +118,7 @@ def explore(ctx):
                         lines.append(scenario(rng, "m%d" % n, n_out, n_in, order_out, order_in, tier)); n += 1
         for _ in range(2):
             lines.append(oversize_reply(rng, "o%d" % n)); n += 1
+        for _ in range(6):
+            lines.append(undecodable_reply(rng, "u%d" % n)); n += 1
     triples, tie = C.run_both(ctx, "TestVerifScn", lines, go_timeout=1500)
     return dict(verdicts=triples, tie=tie, stats=dict(scenarios=len(lines)), exhaustive=not ctx.get("replay"))
